@@ -27,6 +27,8 @@ Definition m_concat (n : nat) (ss : list (nat * list qrow)) obs : bool := mobs_i
 Definition m_normtime (d : nat) (s : list qrow) (tss : list (list (option Z))) obs : bool :=
   mobs_is (normalize_time1 d s tss) obs.
 Definition m_setdepth (old : nat) (d : Z) (s : list qrow) obs : bool := mobs_is (set_depth1 old d s) obs.
+Definition m_setdepth_pad (pad : option Q) (old : nat) (d : Z) (s : list qrow) obs : bool :=
+  mobs_is (set_depth1_pad pad old d s) obs.
 Definition m_downsample (by_ : Z) (s : list qrow) obs : bool := mobs_is (downsample1 by_ s) obs.
 Definition m_interpolate (s : list qrow) obs : bool := mobs_is (interpolate1 s) obs.
 Definition m_reduce (o : redop) (s : list qrow) (obs : option qrow) : bool :=
